@@ -20,7 +20,7 @@ def run(tier, only=None):
     # here the shapes that exercise X, B and the index->base rewriting)
     import copy
     shapes = ("b_s1_hex", "bpixs_s8_hex", "sxi_s1_hex", "sxi_s2_hex", "bpd_s1_hex") if tier == "quick" else None
-    for m in families.c02_families(True):
+    for m in families.c02_families(True, pool=True):
         if m.family.split(".")[0] in ("avx", "bmi", "sse", "mmx", "adx") and (shapes is None or m.name.endswith(shapes)):
             m = copy.deepcopy(m)
             m.name = "c04.mem." + m.name[4:]
